@@ -1286,3 +1286,61 @@ Section DailyDropped.
     - rewrite Hk. reflexivity.
   Qed.
 End DailyDropped.
+
+(* ================================================================== the DST indices are a function of the LOCAL clock *)
+(* what _get_dst_indices reads of a frame: per local date the clock hour and the null-flag of every row and whether the
+   date label resolves — the instants (hs_utc) do not enter.  So the indices of one frame must not be reused for a
+   frame of the same instants in another zone (C06_dst_indices_depend_on_the_zone gives two such frames). *)
+Definition local_view (d : day) : list (nat * bool) * option err :=
+  (map (fun r => (hs_hour r, hs_obs r)) (d_rows d), d_loc d).
+
+Lemma local_view_fields : forall d1 d2, local_view d1 = local_view d2 ->
+  hours d1 = hours d2 /\ (forall pol, day_count pol d1 = day_count pol d2) /\ (forall pol, day_loc pol d1 = day_loc pol d2).
+Proof.
+  intros d1 d2 E. unfold local_view in E. injection E as E1 E2.
+  assert (Hh : hours d1 = hours d2).
+  { unfold hours.
+    assert (F : forall l, map hs_hour l = map fst (map (fun r => (hs_hour r, hs_obs r)) l)).
+    { intros l. rewrite map_map. reflexivity. }
+    rewrite !F, E1. reflexivity. }
+  split; [exact Hh|]. split.
+  - intros pol. unfold day_count, count_obs. destruct (count_rows pol).
+    + rewrite <- (map_length (fun r => (hs_hour r, hs_obs r)) (d_rows d1)), E1, map_length. reflexivity.
+    + assert (F : forall l, length (filter hs_obs l) = length (filter snd (map (fun r => (hs_hour r, hs_obs r)) l))).
+      { intros l. rewrite filter_map_comm, map_length. reflexivity. }
+      rewrite !F, E1. reflexivity.
+  - intros pol. unfold day_loc. rewrite E2. reflexivity.
+Qed.
+
+Lemma interp_loop_local : forall pol days1 days2, map local_view days1 = map local_view days2 ->
+  forall i last, interp_loop pol i days1 last = interp_loop pol i days2 last.
+Proof.
+  intros pol. induction days1 as [|d1 t1 IH]; intros [|d2 t2] E i last; try discriminate; [reflexivity|].
+  cbn [map] in E. pose proof (f_equal (hd (local_view d1)) E) as Ed. pose proof (f_equal (@tl _) E) as Et.
+  cbn [hd tl] in Ed, Et. destruct (local_view_fields d1 d2 Ed) as (Hh & Hc & Hl).
+  cbn [interp_loop]. unfold missing_hours. rewrite (Hc pol), (Hl pol), Hh.
+  destruct (day_count pol d2 =? 23); [|apply IH; exact Et].
+  destruct (day_loc pol d2); [reflexivity|]. destruct (missing_of (hours d2)) as [|h [|h' t]]; try reflexivity.
+  rewrite (IH t2 Et). reflexivity.
+Qed.
+
+Lemma mean_loop_local : forall pol days1 days2, map local_view days1 = map local_view days2 ->
+  forall i last, mean_loop pol i days1 last = mean_loop pol i days2 last.
+Proof.
+  intros pol. induction days1 as [|d1 t1 IH]; intros [|d2 t2] E i last; try discriminate; [reflexivity|].
+  cbn [map] in E. pose proof (f_equal (hd (local_view d1)) E) as Ed. pose proof (f_equal (@tl _) E) as Et.
+  cbn [hd tl] in Ed, Et. destruct (local_view_fields d1 d2 Ed) as (Hh & Hc & Hl).
+  cbn [mean_loop]. rewrite (Hc pol), (Hl pol), Hh.
+  destruct (day_count pol d2 =? 25); [|apply IH; exact Et].
+  destruct (day_loc pol d2); [reflexivity|].
+  destruct (match first_repeat [] (hours d2) with Some h => Some h | None => last end); [|reflexivity].
+  rewrite (IH t2 Et). reflexivity.
+Qed.
+
+Lemma get_dst_indices_local_l : forall pol days1 days2, map local_view days1 = map local_view days2 ->
+  get_dst_indices pol days1 = get_dst_indices pol days2.
+Proof.
+  intros pol days1 days2 E. unfold get_dst_indices. rewrite (interp_loop_local pol days1 days2 E).
+  destruct (interp_loop pol 0 days2 None) as [[interp last]|e]; cbn [bind]; [|reflexivity].
+  rewrite (mean_loop_local pol days1 days2 E). reflexivity.
+Qed.
